@@ -118,7 +118,7 @@ func ruleOwnerFields(r *Report) {
 					}
 				})
 			}
-			if closed && !isSlice && !closedOnAllPaths(fn, closeSites) {
+			if closed && !isSlice && !closedOnAllPaths(r.P, fn, closeSites, f.Name()) {
 				r.Bad(rule, key, fn.Pos(), fmt.Sprintf("%s.Close can return without closing its field %s on some path (an early return that is not a nil test of one of the owner's own handles)", owner, f.Name()))
 			} else if closed {
 				r.OK(rule, key, fn.Pos(), "closed by the owner's Close")
@@ -644,7 +644,7 @@ func ruleJoin(r *Report) {
 // closedOnAllPaths: every return of the owner's Close is reached through a close of the field (direct, or the
 // registration of a deferred closure / call that closes it), except along nil-test edges of the owner's own fields
 // ("nothing to close") and error exits of an earlier fallible step.
-func closedOnAllPaths(fn *ssa.Function, sites []Site) bool {
+func closedOnAllPaths(p *Prog, fn *ssa.Function, sites []Site, field string) bool {
 	if len(sites) == 0 {
 		return false
 	}
@@ -689,8 +689,13 @@ func closedOnAllPaths(fn *ssa.Function, sites []Site) bool {
 	// allowed bypasses: nil edges of tests of receiver fields holding handles (pointer / interface typed)
 	for _, b := range liveBlocks(fn) {
 		if v, nilS, _, ok := nilTest(b); ok {
-			if _, _, base, isF := loadOfField(v); isF && len(fn.Params) > 0 && base == ssa.Value(fn.Params[0]) {
-				if _, isSl := v.Type().Underlying().(*types.Slice); !isSl {
+			if t, g, base, isF := loadOfField(v); isF && len(fn.Params) > 0 && base == ssa.Value(fn.Params[0]) {
+				if _, isSl := v.Type().Underlying().(*types.Slice); isSl {
+					continue
+				}
+				// "nothing to close": the handle itself is nil, another handle is nil, or a field that is always
+				// initialised together with the handle (stored in the same function) is nil
+				if g == field || hasClose(v.Type()) || coInitialised(p, t, field, g) {
 					removed[Edge{b, nilS}] = true
 				}
 			}
@@ -709,4 +714,27 @@ func closedOnAllPaths(fn *ssa.Function, sites []Site) bool {
 		return false
 	}
 	return true
+}
+
+// coInitialised: fields f and g of owner type t are stored by one and the same function (e.g. both set up in Open).
+func coInitialised(p *Prog, t, f, g string) bool {
+	for _, fn := range p.modFns {
+		sf, sg := false, false
+		eachInstr(fn, func(s Site) {
+			if st, ok := s.Instr.(*ssa.Store); ok {
+				if tt, name, _, ok := fieldAddrName(st.Addr); ok && tt == t {
+					if name == f {
+						sf = true
+					}
+					if name == g {
+						sg = true
+					}
+				}
+			}
+		})
+		if sf && sg {
+			return true
+		}
+	}
+	return false
 }
